@@ -9,6 +9,7 @@
   DFT of the implementation's pulse response (and the bit-identical model).
 -/
 import Jb.Proofs.Cepstrum
+import Jb.Proofs.MlsaLinear
 
 set_option linter.unusedSectionVars false
 
@@ -38,6 +39,13 @@ theorem gain_shifts_b0 (alpha : K) (c0 δ : K) (rest : List K) :
 theorem gain_scales_input (hexp : ∀ a b : K, Transc.exp (a + b) = Transc.exp a * Transc.exp b)
     (x b0 δ : K) : x * Transc.exp (b0 + δ) = (x * Transc.exp b0) * Transc.exp δ := by
   rw [hexp]; ring
+
+/-- **The filter is homogeneous in its input**: with frozen coefficients and zero initial state, scaling the
+    excitation by `a` scales the whole response by `a` — so, with `gain_scales_input`, the response
+    scales with `exp(c₀)`. -/
+theorem response_scales (a alpha : K) (c : List K) (nmcp : Nat) (xs : List K) :
+    mlsaRun alpha c (MlsaSt.init nmcp) (xs.map (a * ·)) = (mlsaRun alpha c (MlsaSt.init nmcp) xs).map (a * ·) :=
+  mlsaRun_smul a alpha c nmcp xs
 
 /-! non-vacuity -/
 instance : Transc ℚ := ⟨id, id, id, id, fun x _ => x⟩
